@@ -68,6 +68,8 @@ struct Session {
     loc: il::ProgramLocation,
     names: Vec<(String, usize)>,
     watch: Vec<u64>,
+    /// executable bytes at the addresses unknown branch targets point to (the driver re-lifts there)
+    code: Vec<(u64, u8)>,
 }
 
 fn run(out: &mut Out, s: &Session, steps: u64) {
@@ -79,6 +81,13 @@ fn run(out: &mut Out, s: &Session, steps: u64) {
     let mut memory = Memory::new(endian);
     for (a, b) in &s.mem {
         memory.store(*a, il::const_(*b as u64, 8)).unwrap();
+    }
+    for (a, b) in &s.code {
+        memory.store(*a, il::const_(*b as u64, 8)).unwrap();
+    }
+    if let (Some(first), Some(last)) = (s.code.first(), s.code.last()) {
+        memory.set_permissions(first.0, last.0 - first.0 + 1,
+            falcon::memory::MemoryPermissions::READ | falcon::memory::MemoryPermissions::EXECUTE);
     }
     let mut state = State::new(memory);
     for (n, c) in &s.sc {
@@ -96,6 +105,7 @@ fn run(out: &mut Out, s: &Session, steps: u64) {
         "init_mem": s.mem.iter().map(|(a, b)| json!({"a": addr_limbs(*a), "b": b})).collect::<Vec<_>>(),
         "names": s.names.iter().map(|(n, w)| json!({"n": n, "w": w})).collect::<Vec<_>>(),
         "watch": s.watch.iter().map(|a| addr_limbs(*a)).collect::<Vec<_>>(),
+        "code": s.code.iter().map(|(a, b)| json!({"a": addr_limbs(*a), "b": b})).collect::<Vec<_>>(),
         "steps": steps,
     }));
     let mut driver = Driver::new(RC::new(program), s.loc.clone(), state, arch);
@@ -111,11 +121,16 @@ fn run(out: &mut Out, s: &Session, steps: u64) {
                     okv["mem"] = m.clone();
                     last_mem = m;
                 }
-                out.emit(&json!({"ev": "step", "res": {"ok": okv}}));
-                // a driver that re-lifted a function has a program the trace does not describe
+                // a driver that re-lifted a function at an unknown branch target: log where it landed
+                // (the address of the instruction it now sits on) and end the session
                 if nd.program().functions().len() != s.prog.len() {
+                    okv["relift"] = json!(1);
+                    okv["at"] = proj::addr(nd.address());
+                    okv["loc"] = json!({"k": "lifted"});
+                    out.emit(&json!({"ev": "step", "res": {"ok": okv}}));
                     break;
                 }
+                out.emit(&json!({"ev": "step", "res": {"ok": okv}}));
                 driver = nd;
             }
             other => {
@@ -143,6 +158,7 @@ fn random_session(rng: &mut Rng) -> Session {
     cfg.allow_intrinsic = rng.chance(1, 8);
     cfg.allow_branch = rng.chance(1, 2);
     cfg.branch_pct = 6;
+    cfg.unknown_target_pct = 35;
     cfg.expr_depth = rng.range(1, 3) as u32;
     let mut prog = vec![gen::function(rng, &cfg, 0x1000)];
     if rng.chance(1, 3) {
@@ -178,6 +194,24 @@ fn random_session(rng: &mut Rng) -> Session {
         }
     }
     let names = scalars.iter().map(|s| (s.name().to_string(), s.bits())).collect();
+    // half of the sessions have executable code where unknown branch targets point
+    let mut code = Vec::new();
+    if rng.bool() {
+        let bytes: Vec<u8> = if big {
+            // mips: nop x6 ; jr $ra ; nop
+            let mut v = vec![0u8; 24];
+            v.extend([0x03, 0xe0, 0x00, 0x08, 0, 0, 0, 0]);
+            v
+        } else {
+            // amd64: nop x31 ; ret
+            let mut v = vec![0x90u8; 31];
+            v.push(0xc3);
+            v
+        };
+        for (i, b) in bytes.iter().enumerate() {
+            code.push((0xdead_0000u64 + i as u64, *b));
+        }
+    }
     let f0 = &prog[0];
     let entry = f0.control_flow_graph().entry().unwrap();
     let blk = f0.block(entry).unwrap();
@@ -185,7 +219,7 @@ fn random_session(rng: &mut Rng) -> Session {
         Some(i) => il::FunctionLocation::Instruction(entry, i.index()),
         None => il::FunctionLocation::EmptyBlock(entry),
     };
-    Session { prog, big, sc, mem, loc: il::ProgramLocation::new(Some(0), fl), names, watch }
+    Session { prog, big, sc, mem, loc: il::ProgramLocation::new(Some(0), fl), names, watch, code }
 }
 
 fn session_from_begin(v: &Value) -> (Session, u64) {
@@ -198,7 +232,9 @@ fn session_from_begin(v: &Value) -> (Session, u64) {
         .map(|x| (x["n"].as_str().unwrap().to_string(), x["w"].as_u64().unwrap() as usize)).collect();
     let watch = v["watch"].as_array().unwrap().iter()
         .map(|x| build::big_from_limbs(x).iter_u64_digits().next().unwrap_or(0)).collect();
-    (Session { prog, big: v["big"].as_bool().unwrap(), sc, mem, loc: loc_from_json(&v["loc"]), names, watch },
+    let code = v["code"].as_array().map(|l| l.iter()
+        .map(|x| (build::big_from_limbs(&x["a"]).iter_u64_digits().next().unwrap_or(0), x["b"].as_u64().unwrap() as u8)).collect()).unwrap_or_default();
+    (Session { prog, big: v["big"].as_bool().unwrap(), sc, mem, loc: loc_from_json(&v["loc"]), names, watch, code },
      v["steps"].as_u64().unwrap_or(100))
 }
 
